@@ -747,7 +747,7 @@ impl Property for C02 {
         }
     }
     fn rule(&self) -> &'static str {
-        "one case = 1-3 generated projects with varied resource declarations (files, nested directories, extension filters, >1 KiB files, command resources, outputs as files / filtered directories / commands, X.output chains across projects) and a history of 2-5 invocations separated by 0-4 edits (rewrite, append, touch, rewrite keeping the mtime, delete, create sibling, rename, same-length change beyond byte 1024, output edited, command output changed - including outputs that are not valid UTF-8, that differ only in trailing white space, or that exceed a pipe buffer) and occasional state-file corruption; declared directories may hold links to files kept elsewhere, upper-case extension filters, sibling paths with a common textual prefix, an output written inside the target's own input directory; the project directory is spelled differently (`dir`, `dir/.`, `dir/../dir`) from one invocation to the next; each invocation under its own seeded schedule. Oracle: every observed skip must be justified by the model's record (taken at the target's last successful completion) and the model's comparison with the state at decision time. distinct_nontrivial = distinct order hashes among invocations in which a target with a model record was evaluated"
+        "one case = 1-3 generated projects with varied resource declarations (files, nested directories, extension filters, >1 KiB files, command resources, outputs as files / filtered directories / commands, X.output chains across projects) and a history of 2-5 invocations separated by 0-4 edits (rewrite, append, touch, rewrite keeping the mtime, delete, create sibling, rename, same-length change beyond byte 1024, output edited, command output changed - including outputs that are not valid UTF-8, that differ only in trailing white space, or that exceed a pipe buffer) and occasional state-file corruption; declared directories may hold links to files kept elsewhere, upper-case extension filters, sibling paths with a common textual prefix, an output written inside the target's own input directory; the project directory is spelled differently (`dir`, `dir/.`, `dir/../dir`) from one invocation to the next; each invocation under its own seeded schedule. Oracle: every observed skip must be justified by the model's record (taken at the target's last successful completion) and the model's comparison with the state at decision time. Also injected (a tenth of the invocations): one outcome of a system call made by zinoma while it stores a record - write(2) failing with ENOSPC / EIO, accepting half its buffer, interrupted (EINTR), open failing with EACCES / ENOSPC; files of one path in four carry dates before 1970 for the whole history. distinct_nontrivial = distinct order hashes among invocations in which a target with a model record was evaluated"
     }
     fn assumptions(&self) -> Vec<&'static str> {
         vec!["mtimes of workload and script writes come from the simulator's logical clock (one tick per write)", "race-free layouts: a file is written by at most one target"]
@@ -776,7 +776,7 @@ impl Property for C03 {
         }
     }
     fn rule(&self) -> &'static str {
-        "one case = 1-3 generated projects (shared resources, identical command text and identical relative paths in different project directories, X.output across projects) and a history of 2-5 invocations over an untouched tree (different requested sets and spellings; the only edits are touch-only, content identical). Oracle: a target that declares inputs, has a definite model record and whose declared resources are content-equal to that record must not have its script started; a target without inputs must never be skipped. distinct_nontrivial = distinct order hashes among invocations in which a target with a model record was evaluated"
+        "one case = 1-3 generated projects (shared resources, identical command text and identical relative paths in different project directories, X.output across projects) and a history of 2-5 invocations over an untouched tree (different requested sets and spellings; the only edits are touch-only, content identical). Oracle: a target that declares inputs, has a definite model record and whose declared resources are content-equal to that record must not have its script started; a target without inputs must never be skipped. An eighth of the invocations meet a short or interrupted write(2) / interrupted open while a record is stored (no errors: the record must be complete all the same); a build may empty its output directory, which lies among its inputs, of leftovers; imports and the -p argument may lead through symbolic links. distinct_nontrivial = distinct order hashes among invocations in which a target with a model record was evaluated"
     }
     fn generate(&self, rng: &mut Rng, _case: u64) -> Scenario {
         let mut sc = gen_history(rng, &HistOpts { io: IoOpts { multi_project_pct: 60, max_targets: 6, cmd_pct: 35, cmd_output_pct: 0, own_output_inside_input_pct: 12, long_name_len: 0 }, max_invocations: 4, edit_pct: 40, touch_only: true, vary_entry: false, clean_pct: 0, fail_pct: 18, corrupt_pct: 0, io_fault_pct: 0, sys_fault: (12, true), ancient_every: 0 });
@@ -803,7 +803,7 @@ impl Property for C13 {
         }
     }
     fn rule(&self) -> &'static str {
-        "one case = producer/consumer layout over 1-3 projects (chains, several producers, producers in imported projects at other directories, identical relative paths and command texts in different projects) + history of invocations and edits biased to the producers' outputs and sources. Oracle (both directions, consumers of X.output only): the consumer's decision equals the model's decision with the producer's output resources - files with their extension filter, commands evaluated in the producer's directory - appended to its inputs. Producer-first ordering is C01's oracle. distinct_nontrivial = distinct order hashes among invocations where a consumer with a model record was evaluated"
+        "one case = producer/consumer layout over 1-3 projects (chains, several producers, producers in imported projects at other directories, identical relative paths and command texts in different projects) + history of invocations and edits biased to the producers' outputs and sources. Oracle (both directions, consumers of X.output only): the consumer's decision equals the model's decision with the producer's output resources - files with their extension filter, commands evaluated in the producer's directory - appended to its inputs. Producer-first ordering is C01's oracle. Short and interrupted writes while records are stored (6 % of the invocations). distinct_nontrivial = distinct order hashes among invocations where a consumer with a model record was evaluated"
     }
     fn generate(&self, rng: &mut Rng, case_no: u64) -> Scenario {
         if case_no % 10 == 3 {
@@ -840,7 +840,7 @@ impl Property for C18 {
         }
     }
     fn rule(&self) -> &'static str {
-        "one case = 2-3 projects + a history of 2-5 invocations with different requested targets, different entry projects (-p the root or an imported project's own directory), --clean T for some targets, failing other targets, interleaved with edits. Oracle (both directions): each target's decision equals the model's decision computed from that target's own declared resources and its own last successful completion only. distinct_nontrivial = distinct order hashes among invocations where a target with a model record was evaluated"
+        "one case = 2-3 projects + a history of 2-5 invocations with different requested targets, different entry projects (-p the root or an imported project's own directory), --clean T for some targets, failing other targets, interleaved with edits. Oracle (both directions): each target's decision equals the model's decision computed from that target's own declared resources and its own last successful completion only. Short and interrupted writes while records are stored (a tenth of the invocations); imports and the -p argument may lead through symbolic links. distinct_nontrivial = distinct order hashes among invocations where a target with a model record was evaluated"
     }
     fn generate(&self, rng: &mut Rng, _case: u64) -> Scenario {
         let mut sc = gen_history(rng, &HistOpts { io: IoOpts { multi_project_pct: 85, max_targets: 6, cmd_pct: 20, cmd_output_pct: 0, own_output_inside_input_pct: 12, long_name_len: 0 }, max_invocations: 5, edit_pct: 50, touch_only: false, vary_entry: true, clean_pct: 20, fail_pct: 20, corrupt_pct: 10, io_fault_pct: 0, sys_fault: (10, true), ancient_every: 0 });
@@ -1090,7 +1090,7 @@ impl Property for C12 {
         }
     }
     fn rule(&self) -> &'static str {
-        "one case = 1-3 projects whose output directories are decorated with files not matching the extension filter, nested directories and symbolic links (to files, to directories, dangling, pointing outside the output) + a history of invocations containing `--clean` alone, `--clean T...` and plain runs, with edits in between. Oracle after every invocation: recursive tree snapshot (names, types, link targets, contents, mtimes) after vs before equals the model's deletion set (declared output paths, or only the matching files beneath them; recorded state of the cleaned scope) plus the effects of the scripts that ran; targets in the cleaned scope are never skipped. In a third of the cases zinoma is additionally killed at 12 evenly spaced decision indices inside the last --clean invocation: whatever was deleted so far must lie inside the deletion set and nothing else may differ. Declarations also include `[]` / `['']` filters, overlapping or repeated paths under one filter, one directory declared twice with different filters, declared output paths that are symbolic links to files or directories kept elsewhere (with and without a filter: the link may go, never what it points to), long target names with a common prefix. distinct_nontrivial = distinct order hashes among --clean invocations, completed or killed"
+        "one case = 1-3 projects whose output directories are decorated with files not matching the extension filter, nested directories and symbolic links (to files, to directories, dangling, pointing outside the output) + a history of invocations containing `--clean` alone, `--clean T...` and plain runs, with edits in between. Oracle after every invocation: recursive tree snapshot (names, types, link targets, contents, mtimes) after vs before equals the model's deletion set (declared output paths, or only the matching files beneath them; recorded state of the cleaned scope) plus the effects of the scripts that ran; targets in the cleaned scope are never skipped. In a third of the cases zinoma is additionally killed at 12 evenly spaced decision indices inside the last --clean invocation: whatever was deleted so far must lie inside the deletion set and nothing else may differ. Declarations also include `[]` / `['']` filters, overlapping or repeated paths under one filter, one directory declared twice with different filters, declared output paths that are symbolic links to files or directories kept elsewhere (with and without a filter: the link may go, never what it points to), long target names with a common prefix. Declared output paths may also be spelled through a link (`link/`, `link/.`, `link/inner.txt`: nothing behind the link may go); 15 % of the invocations have a failing or killed build (what `--clean T` has to delete is deleted all the same). distinct_nontrivial = distinct order hashes among --clean invocations, completed or killed"
     }
     fn assumptions(&self) -> Vec<&'static str> {
         vec!["a declared output path that is itself a symbolic link: cleaning removes the link only (what std's remove_file / remove_dir_all do with a link)"]
